@@ -397,6 +397,9 @@ func bigAlphabet(r *Rng, n int) string {
 func genLargeCharCfg(r *Rng) CharCfg {
 	c := genCharCfg(r, charOpt{maxLen: 24, maxReq: 3, noEmptied: r.Chance(0.7)})
 	c.Length = pick(r, []int{4, 8, 8, 16, 32, 64, 100, 127, 128, 129, 150, 200, 256, 300})
+	if r.Chance(0.01) {
+		c.Length = pick(r, []int{32767, 32768, 40000, 70000})
+	}
 	switch r.Intn(4) {
 	case 0:
 		c.AllowChars += bigAlphabet(r, pick(r, []int{200, 235, 240, 250, 255, 256, 300, 400}))
